@@ -33,7 +33,9 @@ use crate::system::{
     Close, Dup, Errno, Exec, Exit, Fork, GetPid, Open, SendSignal, SetPgid, ShellPath, TcSetPgrp,
     Wait,
 };
-use crate::trap::SignalSystem;
+use crate::signal;
+use crate::system::Disposition;
+use crate::trap::{Action, Condition, SignalSystem};
 use itertools::Itertools as _;
 use std::convert::Infallible;
 use std::ffi::CString;
@@ -150,12 +152,40 @@ pub async fn replace_current_process<S: Exec + ShellPath + SignalSystem>(
         .await
         .ok();
 
+    // The shell catches the signals that have a command trap and keeps them
+    // blocked. The kernel resets caught signals to the default action on
+    // `execve` but leaves the signal mask as is, so the new program would
+    // start with those signals blocked. Set them to the default action (which
+    // also unblocks them) until we know whether `execve` succeeds.
+    let trapped: Vec<signal::Number> = env
+        .traps
+        .iter()
+        .filter_map(|(condition, current, _parent)| match (condition, &current.action) {
+            (Condition::Signal(number), Action::Command(_)) => Some(*number),
+            _ => None,
+        })
+        .collect();
+    for &number in &trapped {
+        env.system
+            .set_disposition(number, Disposition::Default)
+            .await
+            .ok();
+    }
+
     let args = to_c_strings(args);
     let envs = env.variables.env_c_strings();
     let Err(errno) = env
         .system
         .execve(path.as_c_str(), args.as_slice(), envs.as_slice())
         .await;
+
+    // The shell goes on (or reports the error): catch the trapped signals again.
+    for &number in &trapped {
+        env.system
+            .set_disposition(number, Disposition::Catch)
+            .await
+            .ok();
+    }
     env.exit_status = match errno {
         Errno::ENOEXEC => {
             fall_back_on_sh(&env.system, path.clone(), args, envs).await;
